@@ -548,9 +548,11 @@ def loaded_kernel_schedules(psy_root):
 
 
 def _class_skeleton(root):
-    from psyclone.psyir.nodes import Node
+    """Statement-level skeleton (Statement / Schedule / Container nodes):
+    the bound expressions of DSL loops are replaced lazily on first query."""
+    from psyclone.psyir.nodes import Statement, Schedule, Container
     lines = []
-    for node in root.walk(Node):
+    for node in root.walk((Statement, Schedule, Container)):
         ann = ",".join(sorted(getattr(node, "annotations", []) or []))
         lines.append(f"{node.depth - root.depth}:{type(node).__name__}"
                      + (f"[{ann}]" if ann else ""))
